@@ -145,6 +145,7 @@ pub fn received_to_json(world: &World, sub: &str, received: &[ReceivedMessage]) 
             "ack": ack,
             "acks": r.ack_id,
             "m": split_id(&m.message_id),
+            "raw": m.message_id,
             "data": digest(&m.data),
             "attrs": attrs_list(&m.attributes),
             "pt": m.publish_time.map(|t| format!("{}.{:09}", t.seconds, t.nanos)).unwrap_or_default(),
@@ -371,6 +372,7 @@ async fn exec_inner(world: Arc<World>, c: usize, spec: CallSpec) -> (String, Val
                 Ok(r) => (
                     "OK".into(),
                     json!({"ids": r.get_ref().message_ids.iter().take(if light { 3 } else { usize::MAX }).map(|i| split_id(i)).collect::<Vec<_>>(),
+                           "raw": r.get_ref().message_ids.iter().take(if light { 3 } else { usize::MAX }).cloned().collect::<Vec<_>>(),
                            "n": r.get_ref().message_ids.len()}),
                 ),
                 Err(s) => status_ret(&s),
